@@ -76,7 +76,7 @@ type compactCase struct {
 	Compact uint32 `json:"compact"`
 }
 
-func compactOne(c uint32, o *outcome) {
+func compactOne(c uint32, o *outcome, neighbours bool) {
 	cs := map[string]interface{}{"part": "pow.compact", "compact": c}
 	want, wneg, wovf := refDecode(c)
 	var got *big.Int
@@ -111,8 +111,11 @@ func compactOne(c uint32, o *outcome) {
 		o.counts["stricter_overflow_flag"]++
 	}
 	o.distinct[fmt.Sprintf("compact|exp<=3:%v|zero:%v|neg:%v|ovf:%v|codeovf:%v", c>>24 <= 3, want.Sign() == 0, wneg, wovf, govf)] = true
-	// encoding of the decoded value and its neighbours
+	// encoding of the decoded value and (quick tier, and on byte boundaries) its neighbours
 	for d := int64(-1); d <= 1; d++ {
+		if d != 0 && !neighbours {
+			continue
+		}
 		v := new(big.Int).Add(want, big.NewInt(d))
 		if v.Sign() < 0 {
 			continue
@@ -135,14 +138,14 @@ func runCompact(rep *core.Report, tier core.Tier, distinct map[string]bool) int 
 			return
 		}
 		if tier == core.Thorough {
-			for _, hi := range []uint32{0x00, 0x01, 0x7f, 0x80, 0xff} {
+			for _, hi := range []uint32{0x00, 0x7f, 0xff} {
 				for lo := uint32(0); lo < 1<<16; lo++ {
-					compactOne(uint32(e)<<24|hi<<16|lo, o)
+					compactOne(uint32(e)<<24|hi<<16|lo, o, lo&0xff == 0 || lo&0xff == 0xff)
 				}
 			}
 		} else {
 			for _, m := range quickMantissas {
-				compactOne(uint32(e)<<24|m, o)
+				compactOne(uint32(e)<<24|m, o, true)
 			}
 		}
 		if e == 0x1d {
@@ -164,7 +167,7 @@ func replayCompact(raw json.RawMessage) (*outcome, error) {
 		return nil, err
 	}
 	o := newOutcome()
-	compactOne(c.Compact, o)
+	compactOne(c.Compact, o, true)
 	return o, nil
 }
 
